@@ -47,7 +47,8 @@ fn put(be: &Arc<InMemoryBackend>, tpe: FileType, data: &[u8]) -> Id {
     id
 }
 
-/// apply one probe to stored bytes: t<j> truncate to j, x<j> extend by j bytes, f<pos>.<bit> flip
+/// apply one probe to stored bytes: t<j> truncate to j, x<j> extend by j bytes, f<pos>.<bit> flip,
+/// j<n> replace by the plaintext JSON {"forged":n}
 fn apply_probe(p: &str, s: &[u8]) -> Vec<u8> {
     let mut v = s.to_vec();
     match &p[..1] {
@@ -56,6 +57,8 @@ fn apply_probe(p: &str, s: &[u8]) -> Vec<u8> {
             let n: usize = p[1..].parse().unwrap();
             v.extend((0..n).map(|i| (i * 37 + 11) as u8));
         }
+        // forged plaintext: the stored bytes are replaced by hand-written JSON
+        "j" => v = format!("{{\"forged\":{}}}", &p[1..]).into_bytes(),
         "f" => {
             let (a, b) = p[1..].split_once('.').unwrap();
             let pos: usize = a.parse().unwrap();
@@ -178,6 +181,91 @@ fn case_nonces(t: &mut Toks) -> String {
         let _ = cts.insert(c[16..].to_vec());
     }
     format!("ok n={} distinct_nonces={} distinct_bodies={} lens_ok={}", n, nonces.len(), cts.len(), u8::from(lens_ok))
+}
+
+const B64: &[u8; 64] = b"ABCDEFGHIJKLMNOPQRSTUVWXYZabcdefghijklmnopqrstuvwxyz0123456789+/";
+fn b64dec(s: &str) -> Vec<u8> {
+    let mut out = Vec::new();
+    let (mut acc, mut bits) = (0u32, 0u32);
+    for c in s.bytes().filter(|c| *c != b'=') {
+        let v = B64.iter().position(|x| *x == c).expect("b64") as u32;
+        acc = (acc << 6) | v;
+        bits += 6;
+        if bits >= 8 {
+            bits -= 8;
+            out.push((acc >> bits) as u8);
+            acc &= (1 << bits) - 1;
+        }
+    }
+    out
+}
+fn b64enc(b: &[u8]) -> String {
+    let mut s = String::new();
+    for ch in b.chunks(3) {
+        let n = (u32::from(ch[0]) << 16) | (u32::from(*ch.get(1).unwrap_or(&0)) << 8) | u32::from(*ch.get(2).unwrap_or(&0));
+        for i in 0..4 {
+            if i <= ch.len() {
+                s.push(B64[((n >> (18 - 6 * i)) & 63) as usize] as char);
+            } else {
+                s.push('=');
+            }
+        }
+    }
+    s
+}
+
+/// tampered key files: `kft K PASS OTHERPASS` — a genuine key file for PASS with its `data` / `salt` /
+/// `N` fields modified, or `data` taken from the key file of OTHERPASS (same master key), opened
+/// with PASS: must never yield a key.  Output: `ok base=<ok|..> <mutation>=<class> ...`
+fn case_kft(t: &mut Toks) -> String {
+    let k = key_bytes(t.u());
+    let pass = pw(t.s());
+    let other = pw(t.s());
+    let (_, data) = hk::keyfile_generate(&k, &pass).unwrap();
+    let (_, data2) = hk::keyfile_generate(&k, &other).unwrap();
+    let json: serde_json::Value = serde_json::from_slice(&data).unwrap();
+    let json2: serde_json::Value = serde_json::from_slice(&data2).unwrap();
+    let open = |j: &serde_json::Value, p: &str| match hk::keyfile_open(&serde_json::to_vec(j).unwrap(), p) {
+        Ok(m) if m == k => "ok".to_string(),
+        Ok(_) => "otherkey".to_string(),
+        Err(c) => c.to_string(),
+    };
+    let mut out = vec![format!("base={}", open(&json, &pass))];
+    let d = b64dec(json["data"].as_str().unwrap());
+    let salt = b64dec(json["salt"].as_str().unwrap());
+    let with = |f: &str, v: serde_json::Value| {
+        let mut j = json.clone();
+        j[f] = v;
+        j
+    };
+    let mut muts: Vec<(String, serde_json::Value)> = Vec::new();
+    for pos in [0usize, 15, 16, d.len() / 2, d.len() - 17, d.len() - 16, d.len() - 1] {
+        let mut x = d.clone();
+        x[pos] ^= 1 << (pos % 8);
+        muts.push((format!("data-flip{pos}"), with("data", b64enc(&x).into())));
+    }
+    for l in [0usize, 10, 16, 31, 32, d.len() - 1] {
+        muts.push((format!("data-trunc{l}"), with("data", b64enc(&d[..l]).into())));
+    }
+    let mut x = d.clone();
+    x.push(0);
+    muts.push(("data-ext1".to_string(), with("data", b64enc(&x).into())));
+    let mut x = salt.clone();
+    x[0] ^= 1;
+    muts.push(("salt-flip".to_string(), with("salt", b64enc(&x).into())));
+    muts.push(("salt-trunc".to_string(), with("salt", b64enc(&salt[..salt.len() - 1]).into())));
+    muts.push(("salt-empty".to_string(), with("salt", "".into())));
+    muts.push(("n-halved".to_string(), with("N", (json["N"].as_u64().unwrap() / 2).into())));
+    muts.push(("r-changed".to_string(), with("r", (json["r"].as_u64().unwrap() / 2).into())));
+    muts.push(("data-of-other-keyfile".to_string(), with("data", json2["data"].clone())));
+    muts.push(("salt-of-other-keyfile".to_string(), with("salt", json2["salt"].clone())));
+    for (name, j) in &muts {
+        out.push(format!("{name}={}", open(j, &pass)));
+    }
+    // the other key file with this password, and this one with the other password
+    out.push(format!("other-file-this-pass={}", open(&json2, &pass)));
+    out.push(format!("this-file-other-pass={}", open(&json, &other)));
+    format!("ok {}", out.join(" "))
 }
 
 /// key file: generate with PASS, open with PASS and with wrong passwords
@@ -414,6 +502,19 @@ fn case_e2e(t: &mut Toks) -> anyhow::Result<String> {
     // --- tamper matrix
     let ov = Overlay::new(store.clone());
     let obe: Arc<dyn WriteBackend> = ov.clone();
+    // the reads of snapshot and index files go through the PUBLIC API of a repository opened over
+    // the overlay (Repository::cat_file -> the DecryptBackend configured by open_raw); the config
+    // file and pack contents through the hooks
+    let rp = open_repo(obe.clone(), None, &key, &repo_opts())?;
+    let api_read = |tpe: FileType, id: &Id| -> Result<Vec<u8>, String> {
+        if tpe == FileType::Config {
+            hk::read_encrypted_full(obe.clone(), &kb, tpe, id).map_err(|e| format!("{}:{}", e.0, e.1))
+        } else {
+            rp.cat_file(tpe, id.to_hex().as_str())
+                .map(|b| b.to_vec())
+                .map_err(|e| format!("{}:{}", hk::classify(&e), e.to_string().replace('\n', " ")))
+        }
+    };
     let mut by: BTreeMap<String, usize> = BTreeMap::new();
     let mut viol: Vec<serde_json::Value> = Vec::new();
     let mut count = |k: String| *by.entry(k).or_insert(0) += 1;
@@ -491,10 +592,8 @@ fn case_e2e(t: &mut Toks) -> anyhow::Result<String> {
             let newlen = tb.len();
             ov.set(*tpe, id, tb);
             if let Some(base) = &base_file {
-                let be2 = obe.clone();
-                let kb2 = kb.clone();
                 let (tp, i2) = (*tpe, *id);
-                let (o, msg) = outcome(catch(move || hk::read_encrypted_full(be2, &kb2, tp, &i2).map_err(|e| format!("{}:{}", e.0, e.1))), base);
+                let (o, msg) = outcome(catch(|| api_read(tp, &i2)), base);
                 count(format!("{tname}/{class}/{o}"));
                 if o == "err" {
                     count(format!("errclass/{}", msg.split(':').next().unwrap_or("?")));
@@ -564,12 +663,12 @@ fn case_e2e(t: &mut Toks) -> anyhow::Result<String> {
         let cb = hk::read_encrypted_full(obe.clone(), &kb, FileType::Snapshot, &b.1).map_err(|e| anyhow::anyhow!(e.1))?;
         ov.set(FileType::Snapshot, &a.1, b.2.clone());
         ov.set(FileType::Snapshot, &b.1, a.2.clone());
-        let ra = hk::read_encrypted_full(obe.clone(), &kb, FileType::Snapshot, &a.1);
+        let ra = api_read(FileType::Snapshot, &a.1);
         let how = match &ra {
             Ok(x) if *x == cb && ca != cb => "returns-other-content".to_string(),
             Ok(x) if *x == ca => "same".to_string(),
             Ok(_) => "diff".to_string(),
-            Err(e) => format!("err:{}", e.0),
+            Err(e) => format!("err:{}", e.split(':').next().unwrap_or("?")),
         };
         let chk = match open_repo(obe.clone(), None, &key, &repo_opts()) {
             Ok(rp) => match std::panic::catch_unwind(std::panic::AssertUnwindSafe(|| check_clean(&rp))) {
@@ -627,11 +726,19 @@ fn case_keys(t: &mut Toks) -> anyhow::Result<String> {
         let (k, arg) = op.split_once(':').unwrap();
         // a / dc / o carry a password (hex), d / m a number
         let pass = if matches!(k, "a" | "dc" | "o") { pw(arg) } else { String::new() };
+        // f:<pass> plants a foreign key file (see below)
         match k {
             "a" => {
                 let id = repo.add_key(&pass, &KeyOptions::default())?;
                 added.push(Some(id));
                 out.push("a=ok".to_string());
+            }
+            "f" => {
+                // a key file made elsewhere: foreign master key, password known to its maker
+                let foreign = key_bytes(0xF0E1_D2C3);
+                let (fid, fdata) = hk::keyfile_generate(&foreign, &pw(arg)).map_err(|e| anyhow::anyhow!(e))?;
+                store.write_bytes(FileType::Key, &fid, false, Bytes::from(fdata).into())?;
+                out.push("f=ok".to_string());
             }
             "d" => {
                 let n: usize = arg.parse()?;
@@ -684,6 +791,7 @@ fn main() {
             "plain" => case_plain(&mut t),
             "nonces" => case_nonces(&mut t),
             "kf" => case_kf(&mut t),
+            "kft" => case_kft(&mut t),
             "e2e" => case_e2e(&mut t).unwrap_or_else(|e| format!("fail {}", e.to_string().replace('\n', " "))),
             "keys" => case_keys(&mut t).unwrap_or_else(|e| format!("fail {}", e.to_string().replace('\n', " "))),
             _ => "badcase".to_string(),
